@@ -55,7 +55,9 @@ def cases(draw, max_leaves):
             "ksel": draw(st.integers(0, 2 ** 30)), "variant": draw(st.sampled_from(VARIANTS)),
             "su": draw(st.booleans()), "ub": draw(st.booleans()), "rooted": draw(st.sampled_from([True, False, None])),
             # filter_leaf_nodes only: recursive=False (one pass over the current leaves)
-            "single_pass": draw(st.booleans())}
+            "single_pass": draw(st.booleans()),
+            # how the taxa / labels argument is handed over: the entry points document "any iterable"
+            "container": draw(st.sampled_from(["list", "list", "tuple", "set", "frozenset", "iter", "generator", "reversed"]))}
 
 
 @st.composite
@@ -222,6 +224,26 @@ def run_variant(ctx, tree, ns, bits, case, spec, step=None, taxa=None, labels=No
     single_pass = False
     result_tree = tree
 
+    container = case.get("container", "list")
+    if container != "list":
+        ctx.cls("argument_container:" + container)
+
+    def wrap(seq):
+        seq = list(seq)
+        if container == "tuple":
+            return tuple(seq)
+        if container == "set":
+            return set(seq)
+        if container == "frozenset":
+            return frozenset(seq)
+        if container == "iter":
+            return iter(seq)
+        if container == "generator":
+            return (x for x in seq)
+        if container == "reversed":
+            return reversed(seq)
+        return seq
+
     if variant == "prune_subtree":
         # only applicable when the complement is exactly one clade: choose the topmost node with that cluster
         cands = [i for i in pre.nodes() if pre_cl[i] == comp and i != pre.root]
@@ -231,13 +253,13 @@ def run_variant(ctx, tree, ns, bits, case, spec, step=None, taxa=None, labels=No
         nd = pre.obj[cands[0]]
         ctx.call(key, tree.prune_subtree, nd, update_bipartitions=ub, suppress_unifurcations=su)
     elif variant == "prune_taxa":
-        ctx.call(key, tree.prune_taxa, Ctaxa, update_bipartitions=ub, suppress_unifurcations=su)
+        ctx.call(key, tree.prune_taxa, wrap(Ctaxa), update_bipartitions=ub, suppress_unifurcations=su)
     elif variant == "prune_taxa_with_labels":
-        ctx.call(key, tree.prune_taxa_with_labels, real(comp), update_bipartitions=ub, suppress_unifurcations=su)
+        ctx.call(key, tree.prune_taxa_with_labels, wrap(real(comp)), update_bipartitions=ub, suppress_unifurcations=su)
     elif variant == "retain_taxa":
-        ctx.call(key, tree.retain_taxa, Ktaxa, update_bipartitions=ub, suppress_unifurcations=su)
+        ctx.call(key, tree.retain_taxa, wrap(Ktaxa), update_bipartitions=ub, suppress_unifurcations=su)
     elif variant == "retain_taxa_with_labels":
-        ctx.call(key, tree.retain_taxa_with_labels, real(K), update_bipartitions=ub, suppress_unifurcations=su)
+        ctx.call(key, tree.retain_taxa_with_labels, wrap(real(K)), update_bipartitions=ub, suppress_unifurcations=su)
     elif variant == "filter_leaf_nodes":
         Kset = set(K)
         single_pass = bool(case.get("single_pass"))
@@ -263,13 +285,13 @@ def run_variant(ctx, tree, ns, bits, case, spec, step=None, taxa=None, labels=No
             result_tree = ctx.call(key, tree.extract_tree, node_filter_fn=lambda nd: nd.taxon is not None and tkey(nd.taxon) in Kset,
                                    suppress_unifurcations=su)
         elif variant == "extract_tree_with_taxa":
-            result_tree = ctx.call(key, tree.extract_tree_with_taxa, Ktaxa, suppress_unifurcations=su)
+            result_tree = ctx.call(key, tree.extract_tree_with_taxa, wrap(Ktaxa), suppress_unifurcations=su)
         elif variant == "extract_tree_with_taxa_labels":
-            result_tree = ctx.call(key, tree.extract_tree_with_taxa_labels, real(K), suppress_unifurcations=su)
+            result_tree = ctx.call(key, tree.extract_tree_with_taxa_labels, wrap(real(K)), suppress_unifurcations=su)
         elif variant == "extract_tree_without_taxa":
-            result_tree = ctx.call(key, tree.extract_tree_without_taxa, Ctaxa, suppress_unifurcations=su)
+            result_tree = ctx.call(key, tree.extract_tree_without_taxa, wrap(Ctaxa), suppress_unifurcations=su)
         elif variant == "extract_tree_without_taxa_labels":
-            result_tree = ctx.call(key, tree.extract_tree_without_taxa_labels, real(comp), suppress_unifurcations=su)
+            result_tree = ctx.call(key, tree.extract_tree_without_taxa_labels, wrap(real(comp)), suppress_unifurcations=su)
 
     got = treechecks.wellformed(ctx, result_tree, "result_well_formed", "C08.wellformed:" + variant, tag, taxon_key=tkey)
     inplace = variant in INPLACE
